@@ -1,4 +1,5 @@
 import TsVerif.C11.Judge
+import TsVerif.C11.Heap
 /-!
 # C11 — Query cursor views agree: captures, matches, ranges, limits, predicates
 
@@ -31,6 +32,18 @@ Clause map (theorem ↦ clause; what is *judged* on the implementation's streams
   true — the defect), `any_eq_witness` (the concrete counterexample).
   OPEN (false on the unchanged tree, true after fixes/C11-any-predicates.diff):
   `∀ isMatch caps p, evalImpl isMatch caps p = evalSpec isMatch caps p`.
+* "a match limit that drops matches is always reported" / ordering of the capture view — the
+  structures behind them (hand ports in Heap.lean, tied by `cunit_c11.c` on every run):
+  `precedes_iff`, `precedes_irrefl`, `precedes_trans`, `precedes_negtrans` (`finished_state_precedes`
+  is a strict weak order on (next capture byte, pattern, insertion order), exhausted states last),
+  `heap_root_min` (= heap_pop_min: in a heap nothing precedes index 0, the state `next_capture`
+  takes), `isHeapB_iff` (the judged predicate is the heap property);
+  `pool_reset`, `pool_acquire`, `pool_release` (= pool_conservation: cached free count exact,
+  used + free = allocated ≤ limit after a reset, acquire fails only when `is_empty`);
+  `pool_flag_prepare`, `pool_flag_abandon` (= pool_flag: the two transitions that kill or drop an
+  in-progress state set `did_exceed_match_limit`).
+  OPEN: `heap_inv` as a theorem (sift_up/sift_down/pop/erase/heapify preserve `IsHeap`) — the heap
+  property is *judged* (`isHeapB`) after every operation of the unit-level scripts instead.
 * quantifier algebra (feeds C05): `quantifier_add_sound/least`, `quantifier_join_sound/least`,
   `quantifier_mul_sound/least`.
 
@@ -421,6 +434,297 @@ theorem any_eq_witness (isMatch : Bytes → Bytes → Bool) :
   intro h
   have := h [(0, [97]), (0, [98]), (0, [99])] (.eqString 0 [122, 122, 122] true false)
   simp [evalImpl, evalSpec, nodesFor, loopStrImpl, specStr] at this
+
+
+
+/-! ## Finished-state heap and capture-list pool (ports in Heap.lean) -/
+
+
+/-- `finished_state_precedes` as a formula: unfinished-capture states first, then by
+(next capture byte, pattern index, insertion order). -/
+theorem precedes_iff (a b : FS) : precedes a b = true ↔
+    a.done = false ∧ (b.done = true ∨ (a.nextByte < b.nextByte ∨ (a.nextByte = b.nextByte ∧
+      (a.pat < b.pat ∨ (a.pat = b.pat ∧ a.order < b.order))))) := by
+  unfold precedes
+  cases a.done <;> cases b.done <;> simp
+  by_cases h1 : a.nextByte = b.nextByte
+  · by_cases h2 : a.pat = b.pat
+    · simp [h1, h2]
+    · simp [h1, h2]
+  · simp [h1]
+
+theorem precedes_irrefl (a : FS) : precedes a a = false := by
+  cases h : precedes a a
+  · rfl
+  · rw [precedes_iff] at h
+    obtain ⟨h1, h2⟩ := h
+    rw [h1] at h2
+    simp at h2
+
+theorem precedes_trans (a b c : FS) (h1 : precedes a b = true) (h2 : precedes b c = true) :
+    precedes a c = true := by
+  rw [precedes_iff] at *
+  obtain ⟨ha, hab⟩ := h1
+  obtain ⟨hb, hbc⟩ := h2
+  refine ⟨ha, ?_⟩
+  rw [hb] at hab
+  simp at hab
+  rcases hbc with hc | hbc
+  · exact Or.inl hc
+  · right; omega
+
+/-- Incomparability is transitive: `precedes` is a strict weak order (ties only between two
+states whose captures are all consumed, or the same state). -/
+theorem precedes_negtrans (a b c : FS) (h1 : precedes a b = false) (h2 : precedes b c = false) :
+    precedes a c = false := by
+  cases h : precedes a c
+  · rfl
+  · exfalso
+    have n1 : ¬ (precedes a b = true) := by simp [h1]
+    have n2 : ¬ (precedes b c = true) := by simp [h2]
+    rw [precedes_iff] at h n1 n2
+    obtain ⟨ha, hac⟩ := h
+    cases hb : b.done <;> cases hc : c.done <;> simp [ha, hb, hc] at n1 n2 hac <;> omega
+
+
+
+/-- Heap property on the first `n` slots. -/
+def IsHeap (a : Array FS) (n : Nat) : Prop :=
+  ∀ i, 0 < i → i < n → precedes a[i]! a[(i - 1) / 2]! = false
+
+theorem isHeapB_iff (a : Array FS) (n : Nat) : isHeapB a n = true ↔ IsHeap a n := by
+  unfold isHeapB IsHeap
+  simp only [List.all_eq_true, List.mem_range, Bool.or_eq_true, beq_iff_eq, Bool.not_eq_true']
+  constructor
+  · intro h i hi hn
+    rcases h i hn with h0 | h1
+    · omega
+    · exact h1
+  · intro h i hn
+    by_cases h0 : i = 0
+    · exact Or.inl h0
+    · exact Or.inr (h i (by omega) hn)
+
+/-- `heap_pop_min`: in a heap the root is a `precedes`-minimum — nothing in the heap precedes the
+state that `finished_state_pop` / `next_capture` take from index 0. -/
+theorem heap_root_min (a : Array FS) (n : Nat) (h : IsHeap a n) :
+    ∀ i, i < n → precedes a[i]! a[0]! = false := by
+  intro i
+  induction i using Nat.strongRecOn with
+  | _ i ih =>
+    intro hi
+    by_cases h0 : i = 0
+    · subst h0; exact precedes_irrefl _
+    · have hp : (i - 1) / 2 < i := by omega
+      have h1 := ih ((i - 1) / 2) hp (by omega)
+      have h2 := h i (by omega) hi
+      exact precedes_negtrans _ _ _ h2 h1
+
+/-! ## Pool -/
+
+theorem count_split (l : List Bool) : countUsed l + countFree l = l.length := by
+  induction l with
+  | nil => rfl
+  | cons b t ih => cases b <;> simp [countUsed, countFree] at * <;> omega
+
+theorem firstFree_none (l : List Bool) (k : Nat) : firstFree l k = none ↔ countFree l = 0 := by
+  induction l generalizing k with
+  | nil => simp [firstFree, countFree]
+  | cons b t ih => cases b <;> simp [firstFree, countFree] at * <;> exact ih _
+
+theorem firstFree_some (l : List Bool) (k i : Nat) (h : firstFree l k = some i) :
+    k ≤ i ∧ i - k < l.length ∧ l[i - k]? = some false := by
+  induction l generalizing k with
+  | nil => simp [firstFree] at h
+  | cons b t ih =>
+    cases b
+    · simp [firstFree] at h; subst h; simp
+    · simp [firstFree] at h
+      obtain ⟨h1, h2, h3⟩ := ih _ h
+      refine ⟨by omega, by simp; omega, ?_⟩
+      have : i - k = (i - (k + 1)) + 1 := by omega
+      rw [this]; simpa using h3
+
+theorem countFree_set_true (l : List Bool) (j : Nat) (h : l[j]? = some false) :
+    countFree (l.set j true) + 1 = countFree l := by
+  induction l generalizing j with
+  | nil => simp at h
+  | cons b t ih =>
+    cases j with
+    | zero => simp at h; subst h; simp [countFree]
+    | succ j => simp at h; cases b <;> simp [countFree] at * <;> have := ih j h <;> omega
+
+theorem countFree_set_false (l : List Bool) (j : Nat) (h : l[j]? = some true) :
+    countFree (l.set j false) = countFree l + 1 := by
+  induction l generalizing j with
+  | nil => simp at h
+  | cons b t ih =>
+    cases j with
+    | zero => simp at h; subst h; simp [countFree]
+    | succ j => simp at h; cases b <;> simp [countFree] at * <;> have := ih j h <;> omega
+
+
+
+theorem countFree_all_false (l : List Bool) : countFree (l.map fun _ => false) = l.length := by
+  induction l with
+  | nil => rfl
+  | cons b t ih => simp [countFree] at *; exact ih
+
+/-- `pool_conservation` (1): after a reset the bookkeeping is exact, every list is free and at
+most `max` lists remain allocated. -/
+theorem pool_reset (p : Pool) :
+    p.reset.Inv ∧ p.reset.inUse.length ≤ p.max ∧ countUsed p.reset.inUse = 0 ∧ p.reset.max = p.max := by
+  unfold Pool.reset Pool.Inv
+  simp only
+  refine ⟨?_, ?_, ?_, by first | rfl | trivial⟩
+  · rw [countFree_all_false]
+  · simp; omega
+  · have := count_split ((List.take p.max p.inUse).map fun _ => false)
+    rw [countFree_all_false] at this
+    simp at this
+    simpa using this
+
+/-- `pool_conservation` (2): `acquire` keeps the bookkeeping exact, never allocates beyond the
+limit, hands out a list that was not in use, and fails only when every allocated list is in use
+and the limit is reached (`is_empty`). -/
+theorem pool_acquire (p : Pool) (hinv : p.Inv) :
+    p.acquire.1.Inv ∧ p.acquire.1.max = p.max ∧
+    (p.inUse.length ≤ p.max → p.acquire.1.inUse.length ≤ p.max) ∧
+    (∀ i, p.acquire.2 = some i → p.inUse[i]? ≠ some true ∧ p.acquire.1.inUse[i]? = some true) ∧
+    (p.acquire.2 = none → p.isEmpty = true ∧ countUsed p.inUse = p.inUse.length) := by
+  unfold Pool.Inv at hinv
+  unfold Pool.acquire
+  by_cases hf : p.free > 0
+  · -- a free list exists
+    simp only [hf, if_true]
+    cases hff : firstFree p.inUse 0 with
+    | none =>
+      rw [firstFree_none] at hff
+      omega
+    | some i =>
+      obtain ⟨_, hlt, hget⟩ := firstFree_some _ _ _ hff
+      simp only [Nat.sub_zero] at hlt hget
+      have hc := countFree_set_true _ _ hget
+      refine ⟨?_, rfl, ?_, ?_, ?_⟩
+      · unfold Pool.Inv; simp only; omega
+      · intro h; simpa using h
+      · intro j hj
+        simp at hj; subst hj
+        refine ⟨by rw [hget]; simp, ?_⟩
+        simp [hlt]
+      · intro h; simp at h
+  · have hf0 : p.free = 0 := by omega
+    simp only [hf, if_false]
+    by_cases hmax : p.inUse.length ≥ p.max
+    · simp only [hmax, if_true]
+      refine ⟨hinv, by first | rfl | trivial, fun h => h, ?_, ?_⟩
+      · intro i h; simp at h
+      · intro _
+        refine ⟨by unfold Pool.isEmpty; simp [hf0, hmax], ?_⟩
+        have := count_split p.inUse
+        omega
+    · simp only [hmax, if_false]
+      refine ⟨?_, by first | rfl | trivial, ?_, ?_, ?_⟩
+      · unfold Pool.Inv; simp only
+        rw [hf0] at hinv
+        rw [hf0]
+        simp [countFree] at *
+        exact hinv
+      · intro _; simp; omega
+      · intro i h
+        simp at h; subst h
+        simp
+      · intro h; simp at h
+
+/-- `pool_conservation` (3): releasing a list that is in use keeps the bookkeeping exact. -/
+theorem pool_release (p : Pool) (id : Nat) (hinv : p.Inv) (h : p.inUse[id]? = some true) :
+    (p.release id).Inv ∧ (p.release id).inUse.length = p.inUse.length ∧
+    countUsed (p.release id).inUse + 1 = countUsed p.inUse := by
+  unfold Pool.Inv at hinv
+  have hlt : id < p.inUse.length := by
+    rcases Nat.lt_or_ge id p.inUse.length with h1 | h1
+    · exact h1
+    · rw [List.getElem?_eq_none h1] at h; simp at h
+  unfold Pool.release
+  rw [if_neg (by omega)]
+  have hc := countFree_set_false _ _ h
+  refine ⟨?_, by simp, ?_⟩
+  · unfold Pool.Inv; simp only; omega
+  · have s1 := count_split p.inUse
+    have s2 := count_split (p.inUse.set id false)
+    simp at s2
+    simp only
+    omega
+
+
+
+theorem map_dead_set (l : List PState) (i : Nat) (st st' : PState) (h : l[i]? = some st)
+    (hd : st'.dead = st.dead) : (l.set i st').map (·.dead) = l.map (·.dead) := by
+  induction l generalizing i with
+  | nil => simp
+  | cons x t ih =>
+    cases i with
+    | zero => simp at h; subst h; simp [hd]
+    | succ i => simp at h; simp [ih i h]
+
+/-- `pool_flag` (stealing): `ts_query_cursor__prepare_to_capture` either leaves every state alive
+and provides a capture list, or it has set `did_exceed_match_limit` — a state is never killed and
+a capture is never dropped silently. -/
+theorem pool_flag_prepare (c : CursorPool) (idx : Nat) (victim preserve : Option Nat)
+    (hidx : idx < c.states.length) :
+    (prepareToCapture c idx victim preserve).1.flag = true ∨
+    ((prepareToCapture c idx victim preserve).2 = true ∧
+     (prepareToCapture c idx victim preserve).1.states.map (·.dead) = c.states.map (·.dead)) := by
+  unfold prepareToCapture
+  have hsome : c.states[idx]? = some c.states[idx] := List.getElem?_eq_getElem hidx
+  rw [hsome]
+  simp only
+  cases hl : c.states[idx].list with
+  | some id => right; simp
+  | none =>
+    simp only
+    cases hacq : c.pool.acquire.2 with
+    | some id =>
+      right
+      rcases hp : c.pool.acquire with ⟨pool', got⟩
+      rw [hp] at hacq
+      simp only at hacq
+      subst hacq
+      simp only
+      exact ⟨trivial, map_dead_set _ _ _ _ hsome rfl⟩
+    | none =>
+      left
+      rcases hp : c.pool.acquire with ⟨pool', got⟩
+      rw [hp] at hacq
+      simp only at hacq
+      subst hacq
+      simp only
+      cases victim with
+      | none => rfl
+      | some v =>
+        simp only
+        split
+        · split <;> rfl
+        · rfl
+
+/-- `pool_flag` (abandon): the abandon branch of `ts_query_cursor_next_capture` either changes
+nothing or has set the flag (true since commit 7979252). -/
+theorem pool_flag_abandon (c : CursorPool) (victim : Option Nat) :
+    (abandonEarliest c victim).flag = true ∨ abandonEarliest c victim = c := by
+  unfold abandonEarliest
+  cases victim with
+  | none => right; rfl
+  | some v =>
+    simp only
+    split
+    · split
+      · left; rfl
+      · right; rfl
+    · right; rfl
+
+/-- Non-vacuity: with a pool of one list in use by state 0, state 1 steals it: state 0 dies, flag set. -/
+example : (prepareToCapture ⟨⟨[true], 0, 1⟩, [⟨some 0, false⟩, ⟨none, false⟩], false⟩ 1 (some 0) none) =
+    (⟨⟨[true], 0, 1⟩, [⟨none, true⟩, ⟨some 0, false⟩], true⟩, true) := by decide
 
 
 end TsVerif.C11
